@@ -36,14 +36,23 @@ func smChunkRemovals(n int) [][]int {
 		}
 		out = append(out, keep)
 	}
-	for parts := 2; parts <= 8 && parts <= n; parts *= 2 {
-		sz := (n + parts - 1) / parts
-		for lo := 0; lo < n; lo += sz {
-			add(lo, lo+sz)
-		}
+	// Every shrink round costs one harness run plus one Coq evaluation of all candidates, and the
+	// check driver spends up to two minutes per violation code on it: keep rounds few and small.
+	// Long lists: big chunks only (at most 14 candidates); short lists: single removals.
+	if n <= 4 {
+		return out // short enough to read; further rounds are not worth their cost
 	}
-	for i := 0; i < n; i++ {
-		add(i, i+1)
+	if n > 8 {
+		for parts := 2; parts <= 8; parts *= 2 {
+			sz := (n + parts - 1) / parts
+			for lo := 0; lo < n; lo += sz {
+				add(lo, lo+sz)
+			}
+		}
+	} else {
+		for i := 0; i < n; i++ {
+			add(i, i+1)
+		}
 	}
 	return out
 }
